@@ -558,7 +558,7 @@ def run_model(tr):
             try:
                 r = run_tlc("MC_Feistel", j["cfg"], name="mc-" + j["name"], extra=("-seed", str(seed() + 15)),
                             allow_violation=bool(j["expect_violation"]), workers=j["workers"] or max(4, NCPU // 2),
-                            timeout=1500)
+                            timeout=1500, heap="4g")
                 res[j["name"]] = r
             except Exception as ex:                 # noqa
                 errs.append((j["name"], ex))
@@ -641,6 +641,8 @@ def main(argv_tier=None, replay_path=None):
     t0 = time.time()
     tr = tier(argv_tier)
     env()
+    # the trace-validation JVMs (one per shard) would each size their heap from the machine's RAM
+    os.environ.setdefault("JAVA_TOOL_OPTIONS", "-Xmx3g")
     if replay_path:
         with open(replay_path) as fh:
             rp = json.load(fh)
